@@ -1,6 +1,7 @@
 """Driver: verifies one real function against its sidecar contract, path by path."""
 import importlib
 import time
+import os
 import traceback
 import types
 import z3
@@ -225,19 +226,56 @@ def mentions_seq(e):
     return False
 
 
+class _Watchdog:
+    """one daemon thread per process: interrupts the z3 context when the query in progress overruns its wall-clock
+    deadline (z3's own `timeout` is a soft limit that some tactics do not poll: minutes on a 10 s budget observed)"""
+    def __init__(self):
+        import threading
+        self.lock = threading.Lock()
+        self.deadline = None
+        self.ctx = None
+        self.thread = None
+        self.pid = None
+
+    def _run(self):
+        while True:
+            time.sleep(0.5)
+            with self.lock:
+                if self.deadline is not None and time.time() > self.deadline and self.ctx is not None:
+                    try:
+                        self.ctx.interrupt()
+                    except Exception:
+                        pass
+                    self.deadline = time.time() + 5.0      # again, should the first interrupt be missed
+
+    def arm(self, ctx, seconds):
+        import threading
+        if self.thread is None or self.pid != os.getpid() or not self.thread.is_alive():
+            self.lock = threading.Lock()
+            self.pid = os.getpid()
+            self.thread = threading.Thread(target=self._run, daemon=True)
+            self.thread.start()
+        with self.lock:
+            self.ctx = ctx
+            self.deadline = time.time() + seconds
+
+    def disarm(self):
+        with self.lock:
+            self.deadline = None
+
+
+WATCHDOG = _Watchdog()
+
+
 def hard_check(solver, timeout_ms):
-    """solver.check() with a wall-clock guard: z3's own `timeout` is a soft limit that some tactics do not poll
-    (observed: minutes on a 10 s budget); a watchdog interrupts the context, the result is then `unknown`"""
-    import threading
-    t = threading.Timer(timeout_ms / 1000.0 * 1.5 + 3.0, solver.ctx.interrupt)
-    t.daemon = True
-    t.start()
+    """solver.check() under the wall-clock watchdog; an interrupted query is `unknown`"""
+    WATCHDOG.arm(solver.ctx, timeout_ms / 1000.0 * 1.5 + 3.0)
     try:
         return solver.check()
     except z3.Z3Exception:
         return z3.unknown
     finally:
-        t.cancel()
+        WATCHDOG.disarm()
 
 
 def check_valid(ctx, formula, timeout_ms, want_model_vars=None, uf_apps=None):
